@@ -453,8 +453,8 @@ subassign_shape!(c01_q_subassign_2_2, 2, 2);
 sub_refval_shape!(c01_q_subrefval_2_2, 2, 2);
 subassign_shape!(c01_t_subassign_3_0, 3, 0);
 sub_refval_shape!(c01_t_subrefval_3_0, 3, 0);
-subassign_shape!(c01_t_subassign_3_1, 3, 1);
-sub_refval_shape!(c01_t_subrefval_3_1, 3, 1);
+subassign_shape!(c01_q_subassign_3_1, 3, 1);
+sub_refval_shape!(c01_q_subrefval_3_1, 3, 1);
 subassign_shape!(c01_q_subassign_3_2, 3, 2);
 sub_refval_shape!(c01_q_subrefval_3_2, 3, 2);
 subassign_shape!(c01_t_subassign_3_3, 3, 3);
@@ -463,8 +463,8 @@ subassign_shape!(c01_t_subassign_4_0, 4, 0);
 sub_refval_shape!(c01_t_subrefval_4_0, 4, 0);
 subassign_shape!(c01_t_subassign_4_1, 4, 1);
 sub_refval_shape!(c01_t_subrefval_4_1, 4, 1);
-subassign_shape!(c01_t_subassign_4_2, 4, 2);
-sub_refval_shape!(c01_t_subrefval_4_2, 4, 2);
+subassign_shape!(c01_q_subassign_4_2, 4, 2);
+sub_refval_shape!(c01_q_subrefval_4_2, 4, 2);
 subassign_shape!(c01_t_subassign_4_3, 4, 3);
 sub_refval_shape!(c01_t_subrefval_4_3, 4, 3);
 subassign_shape!(c01_t_subassign_4_4, 4, 4);
